@@ -145,12 +145,25 @@ func (s *HeaderScanner) Next() bool {
 	isMultiLineValue := false
 	for {
 		if n+1 >= len(s.B) {
+			if isMultiLineValue {
+				// The buffer ends with this continuation line: whether the value goes on is not known yet.
+				// Ask for more before the value is compacted in place: a value compacted too early reads
+				// differently once its next line has arrived (blanks at the end of the value so far are
+				// dropped). A complete header block always has the line that ends it behind the last value.
+				s.Err = errNeedMore
+				return false
+			}
 			break
 		}
 		if s.B[n+1] != ' ' && s.B[n+1] != '\t' {
 			break
 		}
 		d := bytes.IndexByte(s.B[n+1:], '\n')
+		if d < 0 && isMultiLineValue {
+			// the next continuation line is still being received
+			s.Err = errNeedMore
+			return false
+		}
 		if d <= 0 {
 			break
 		} else if d == 1 && s.B[n+1] == '\r' {
